@@ -326,6 +326,10 @@ def scan_generated(code, sandboxed=True):
                 problems.append(("direct-call-of-template-value", n.lineno, ast.unparse(n)[:80]))
             elif isinstance(f, ast.Name) and f.id == "getattr" and n.args and not engine_rooted(n.args[0]):
                 problems.append(("builtin-getattr-on-template-value", n.lineno, ast.unparse(n)[:80]))
+            elif isinstance(f, ast.Name) and f.id == "getattr" and len(n.args) >= 2 and isinstance(n.args[1], ast.Constant) \
+                    and isinstance(n.args[1].value, str) and n.args[1].value.startswith("_"):
+                # from-import reads module attributes with the builtin getattr: never an underscore name
+                problems.append(("builtin-getattr-of-underscore-name", n.lineno, ast.unparse(n)[:80]))
     return problems, counts
 
 
@@ -378,6 +382,10 @@ class SGen:
             return "{% for i" + str(i) + " in " + self.ex() + " recursive %}" + body + "{{ loop(" + self.ex() + ") }}{% endfor %}"
         if k == 12:
             return "{% block blk" + str(i) + " %}" + body + "{% endblock %}"
+        if k == 13 and r.random() < 0.5:
+            n = r.choice(["pub", "hello", "_priv", "__class__", "__dict__", "_body_stream", "__module__"])
+            return ("{% from " + self.ex() + " import " + n + " as im" + str(i) + (", pub" if r.random() < 0.5 else "")
+                    + (" with context" if r.random() < 0.5 else "") + " %}{{ im" + str(i) + " }}")
         return "{% include " + self.ex() + " ignore missing %}"
 
     def template(self):
